@@ -186,3 +186,96 @@ def pipeline_component(tier, seed):
 @component(("C07", "C08"), "pipeline.orphan_sweep_last", "static")
 def orphan_component(tier, seed):
     return pipeline_obligations("orphans")
+
+
+# ------------------------------------------------------------------------------------------------ call-site bindings (5.1)
+def _find_calls(fn, pred):
+    return [n for n in ast.walk(fn) if isinstance(n, ast.Call) and pred(n)]
+
+
+def _src(n):
+    return ast.unparse(n).replace(" ", "").replace("\n", "").replace("'", '"')
+
+
+def callsite_obligations():
+    """Composition order and argument binding at the call sites that the tree-walking code uses to place content.
+    Decided on the AST (argument expressions), so a refactor that renames the locals involved has to be re-recorded here."""
+    A = _Acc()
+    tree = ast.parse(open(SVG_PY).read(), SVG_PY)
+    cls = next(n for n in tree.body if isinstance(n, ast.ClassDef) and n.name == "SVG")
+    fns = {n.name: n for n in tree.body if isinstance(n, ast.FunctionDef)}
+    A.res.functions = ["svg._element_transform", "svg.SVG._resolve_use", "svg.SVG._unnest_svg", "svg.SVG._resolve_clip_path", "svg.SVG._transformed_gradient",
+                       "svg.SVG._traverse", "svg._inherit_matrix_multiply", "svg.SVG.clip_to_viewbox", "svg_types._SVGGradient.as_user_space_units"]
+
+    def ltr_args(fn):
+        return [_src(c.args[0]) for c in _find_calls(fn, lambda c: _src(c.func).endswith("compose_ltr")) if c.args]
+
+    # element CTM: the element's own transform first, then the ancestors'
+    A.ob("(Affine2D.fromstring(raw),current_transform)" in ltr_args(fns["_element_transform"]), "callsite:_element_transform:own_transform_then_ancestors",
+         "_element_transform no longer composes (own transform, then current transform) left to right")
+    et = fns["_element_transform"]
+    A.ob('attr_name="gradientTransform"' in _src(et) and "_is_gradient(el.tag)" in _src(et), "callsite:_element_transform:gradients_use_gradientTransform", "gradient elements must read gradientTransform")
+    # use: translate(x, y) first, then the use transform; group removal must not push opacity (it is inherited right after)
+    ru = _method(cls, "_resolve_use")
+    A.ob('(affine,Affine2D.fromstring(use_el.attrib["transform"]))' in ltr_args(ru) or "(affine,Affine2D.fromstring(use_el.attrib['transform']))" in ltr_args(ru), "callsite:_resolve_use:translate_xy_then_use_transform",
+         "_resolve_use must compose translate(x, y) first and the use's transform second")
+    s = _src(ru)
+    A.ob('Affine2D.identity().translate(float(use_el.attrib.get("x",0)),float(use_el.attrib.get("y",0)))' in s.replace("'", '"'), "callsite:_resolve_use:translation_from_x_and_y", "_resolve_use must translate by (x, y) of the use element")
+    trg = _find_calls(ru, lambda c: _src(c.func) == "_try_remove_group")
+    A.ob(bool(trg) and all(_kw(c, "push_opacity") == "False" for c in trg), "callsite:_resolve_use:opacity_applied_once",
+         "_resolve_use must not push the wrapper group's opacity when removing it: the attributes (opacity included) are inherited once, right after")
+    A.ob('"id"inel.attrib' in s.replace("'", '"') and 'delel.attrib["id"]' in s.replace("'", '"'), "callsite:_resolve_use:ids_stripped_from_instances", "_resolve_use must strip ids from instantiated copies")
+    # nested svg viewport
+    un = _method(cls, "_unnest_svg")
+    s = _src(un)
+    A.ob("Affine2D.rect_to_rect(viewbox,viewport,preserve_aspect_ratio)" in s, "callsite:_unnest_svg:viewbox_onto_viewport", "_unnest_svg must map the viewBox onto the viewport (in that order) with the element's preserveAspectRatio")
+    A.ob('svg.attrib.get("preserveAspectRatio","xMidYMid")' in s.replace("'", '"'), "callsite:_unnest_svg:default_xMidYMid", "preserveAspectRatio must default to xMidYMid (meet)")
+    A.ob('(transform,Affine2D.fromstring(svg.attrib["transform"]))' in [a.replace("'", '"') for a in ltr_args(un)], "callsite:_unnest_svg:viewport_mapping_then_own_transform", "_unnest_svg must apply the viewport mapping first and the svg's own transform second")
+    rec = _find_calls(un, lambda c: _src(c.func) == "self._unnest_svg")
+    A.ob(bool(rec) and all([_src(a) for a in c.args] == ["el", "viewbox.w", "viewbox.h"] for c in rec), "callsite:_unnest_svg:inner_svg_sized_by_enclosing_viewbox",
+         "a nested svg inside a nested svg must resolve its default width/height against the enclosing svg's viewBox size")
+    A.ob('float(svg.attrib.get("width",parent_width))' in s.replace("'", '"') and 'float(svg.attrib.get("height",parent_height))' in s.replace("'", '"'), "callsite:_unnest_svg:default_size_is_parent_size", "missing width/height default to the parent's size")
+    A.ob('svg.attrib.get("overflow","hidden")' in s.replace("'", '"') and "SVGRect(x=x,y=y,width=width,height=height)" in s, "callsite:_unnest_svg:overflow_hidden_clips_to_viewport", "non-root svg elements clip to their viewport unless overflow is visible")
+    # clip paths: children under (child transform, clipPath transform, referencing CTM); the nested clip gets the same composed transform
+    rc = _method(cls, "_resolve_clip_path")
+    s = _src(rc)
+    A.ob("transform=_element_transform(clip_path_el,transform)" in s, "callsite:_resolve_clip_path:clipPath_transform_composed", "the clipPath's own transform must be composed with the referencing element's CTM")
+    A.ob("from_element(e).apply_transform(_element_transform(e,transform))" in s, "callsite:_resolve_clip_path:children_placed_with_composed_transform", "clipPath children must be placed with (child transform, clipPath transform, CTM)")
+    rec = _find_calls(rc, lambda c: _src(c.func) == "self._resolve_clip_path")
+    ok = bool(rec) and all(len(c.args) == 2 and _src(c.args[1]) == "transform" for c in rec)
+    assigns = [n for n in ast.walk(rc) if isinstance(n, ast.Assign) and len(n.targets) == 1 and _src(n.targets[0]) == "transform"]
+    ok = ok and len(assigns) == 1 and rec and assigns[0].lineno < rec[0].lineno
+    A.ob(ok, "callsite:_resolve_clip_path:nested_clip_gets_composed_transform", "a clip-path on the clipPath itself must be resolved with the transform that includes the clipPath's own transform")
+    A.ob("SVGPath.from_commands(union(clip_paths))" in s and "intersection([clip,clip_clop])" in s, "callsite:_resolve_clip_path:union_of_children_intersected_with_nested_clip", "clip region = union of the children, intersected with the nested clip")
+    # traversal: child CTM from the parent's, ancestor clips resolved with the child's CTM
+    tr = _method(cls, "_traverse")
+    s = _src(tr)
+    A.ob("transform=_element_transform(child,context.transform)" in s, "callsite:_traverse:child_ctm", "the child's CTM must be its transform composed with the parent context's")
+    A.ob('self._resolve_clip_path(child.attrib["clip-path"],transform)' in s.replace("'", '"') and "clips=context.clips" in s and "clips+=" in s, "callsite:_traverse:clips_accumulate_with_child_ctm",
+         "clips accumulate along the ancestor chain, each resolved with the CTM of the element that carries it")
+    A.ob("_attrib_to_pass_on(context.attrib,child)" in s, "callsite:_traverse:attributes_passed_down", "inherited attributes must flow from the parent context to the child")
+    # gradients
+    tg = _method(cls, "_transformed_gradient")
+    A.ob("(gradient.gradientTransform,transform)" in ltr_args(tg), "callsite:_transformed_gradient:gradientTransform_then_ctm", "the gradient's own transform applies first, the shape's CTM second")
+    A.ob(".as_user_space_units(shape_bbox,inplace=True)" in _src(tg) and 'self._new_id(gradient.id+"_%d")' in _src(tg).replace("'", '"'), "callsite:_transformed_gradient:bbox_units_resolved_and_fresh_id",
+         "a cloned gradient must be converted to user space with the shape's bounding box and get a fresh id")
+    ttree = ast.parse(open("/repo/src/picosvg/svg_types.py").read())
+    grad = next(n for n in ttree.body if isinstance(n, ast.ClassDef) and n.name == "_SVGGradient")
+    us = next(n for n in grad.body if isinstance(n, ast.FunctionDef) and n.name == "as_user_space_units")
+    A.ob("(self.gradientTransform,Affine2D.rect_to_rect(_UNIT_RECT,shape_bbox))" in ltr_args(us), "callsite:as_user_space_units:gradientTransform_then_bbox_mapping",
+         "objectBoundingBox units: the gradientTransform applies first, then the unit square is mapped onto the bounding box")
+    imm = fns["_inherit_matrix_multiply"]
+    A.ob("(Affine2D.fromstring(child.attrib[attr_name]),transform)" in ltr_args(imm), "callsite:_inherit_matrix_multiply:child_then_parent", "the child's transform applies first, the inherited one second")
+    A.ob("delchild.attrib[attr_name]" in _src(imm), "callsite:_inherit_matrix_multiply:identity_result_removes_attribute", "when the composed transform is the identity the child's stale transform attribute must be removed")
+    # clip_to_viewbox
+    cv = _method(cls, "clip_to_viewbox")
+    s = _src(cv)
+    A.ob("SVGRect(x=isct.x,y=isct.y,width=isct.w,height=isct.h)" in s and "fill_rules=(shape.fill_rule,clip_path.clip_rule)" in s and "(shape,clip_path)" in s,
+         "callsite:clip_to_viewbox:clip_rectangle_is_bbox_intersection", "clip_to_viewbox must intersect the shape (under its fill rule) with the rectangle bbox INTERSECT viewBox")
+    A.ob("view_box.intersection(shape.bounding_box())isNone" in s and "_safe_remove(el)" in s, "callsite:clip_to_viewbox:drops_shapes_outside", "shapes whose bounding box misses the viewBox are removed")
+    return A.res
+
+
+@component(("C02", "C03", "C06", "C05", "C08", "C19"), "callsites.composition_order", "static")
+def callsite_component(tier, seed):
+    return callsite_obligations()
